@@ -214,7 +214,10 @@ func (n *simNet) step() {
 	switch r.Intn(16) {
 	case 0, 1:
 		if len(n.joined) < 3 {
-			n.joinMe(r.Pick([]string{"#Chan", "#a[b]", "&local", "#x", "#Zed^"}))
+			ch := r.Pick([]string{"#Chan", "#a[b]", "&local", "#x", "#Zed^"})
+			if _, in := n.joined[lowerRFC(ch)]; !in {
+				n.joinMe(ch)
+			}
 		}
 	case 2, 3:
 		if len(chans) == 0 {
@@ -462,13 +465,32 @@ func init() {
 	}
 }
 
+// hand-written histories that run first (each once exposed a difference)
+var c04Corpus = [][]string{
+	{ // a list mode whose letter is also a privilege letter elsewhere (solanum's +q quiet) names a present user
+		":srv 001 me :Welcome",
+		":srv 005 me PREFIX=(ov)@+ CHANMODES=eIbq,k,flj,imnpst :are supported by this server",
+		":me!~me@my.host JOIN #c",
+		":srv 353 me = #c :me @alice bob",
+		":alice!a@h MODE #c +q bob",
+		":alice!a@h MODE #c +qv-o alice bob alice",
+	},
+}
+
 func runC04(c *Ctx) {
 	r := c.R
 	r.Rule = "random walks of a simulated network (5 other users, up to 3 channels, RFC1459-case-variant spellings in parameters, nick changes incl. case-only and of the client itself, multi-prefix NAMES with and without userhost-in-names split over several 353 lines, " +
 		"extended-join, 352/354 WHO replies, MODE strings mixing +/- over all four CHANMODES classes and PREFIX modes, TOPIC/AWAY/ACCOUNT/CHGHOST/account-tag traffic, 001 renaming the client, 004/005/MOTD): the real client vs its model (lines, dumps) " +
 		"and the model vs the reference tracker (observation equality); non-trivial = >= 25 lines; distinct = distinct history"
-	for i := 0; i < 120*c.Scale; i++ {
-		steps := simHistory(c.Rng, 10+c.Rng.Intn(60))
+	for i := 0; i < len(c04Corpus)+120*c.Scale; i++ {
+		var steps []string
+		if i < len(c04Corpus) {
+			for _, l := range c04Corpus[i] {
+				steps = append(steps, "R"+l)
+			}
+		} else {
+			steps = simHistory(c.Rng, 10+c.Rng.Intn(60))
+		}
 		// checked after the welcome has been fully processed: dumps at the end and at a few points in between
 		var withDumps []string
 		for j, s := range steps {
